@@ -10,9 +10,10 @@
      ident s             ASCII identifier that is not a reserved word
      import_line_ok      `import <ident | { ident }> from DQ<module>DQ;` on a line of its own
 
-   Where the current code is defective the faithful model carries a `..._refuted` lemma and a
-   `..._repaired` variant with the theorem that holds after the proposed repair
-   (/verif/work/c13-fix-*.diff).
+   The builders are those of the repaired tree (the six `fix:` commits of /repo for jsx-curly-braces,
+   jsx-props-no-spread-multi, jsx-boolean-value, verbatim-module-syntax, no-process-global /
+   no-node-globals).  The builders of the tree before those commits are kept as `*_before_fix`
+   definitions with their `..._before_fix_refuted` lemmas (historic witnesses of the defects).
 
    Model first (extracted), theorems below. *)
 From V Require Export Text.FixApply.
@@ -38,19 +39,20 @@ Definition has (c : N) (s : str) : bool := existsb (N.eqb c) s.
 Definition ignore_chars (v : str) : bool :=
   existsb (fun c => (c =? LBRACE) || (c =? RBRACE) || (c =? LT) || (c =? GT)) v.
 
-(* format!(DQ {} DQ, lit_str.value()) over value.range() *)
-Definition curly_attr_fix (v : str) : str := DQ :: v ++ [DQ].
-Definition curly_attr_change (s e : N) (v : str) : chg := (s, e, curly_attr_fix v).
+(* before the fix: format!(DQ {} DQ, lit_str.value()) over value.range() *)
+Definition curly_attr_fix_before_fix (v : str) : str := DQ :: v ++ [DQ].
+
+(* the quote that does not occur in the value, format!({q}{value}{q}); no fix (None) if both occur *)
+Definition curly_attr_fix (v : str) : option str :=
+  if has DQ v then (if has SQ v then None else Some (SQ :: v ++ [SQ])) else Some (DQ :: v ++ [DQ]).
+Definition curly_attr_change (s e : N) (v : str) : option chg :=
+  match curly_attr_fix v with Some t => Some (s, e, t) | None => None end.
 
 (* lit_str.value() over child.range(), offered only if !IGNORE_CHARS.is_match(value) *)
 Definition curly_child_fix (v : str) : option str := if ignore_chars v then None else Some v.
 
 (* format!({{{}}}, jsx_el.text()) over value.range() *)
 Definition missing_curly_fix (el : str) : str := LBRACE :: el ++ [RBRACE].
-
-(* proposed repair: use the quote that does not occur in the value; no fix if both occur *)
-Definition curly_attr_fix_repaired (v : str) : option str :=
-  if has DQ v then (if has SQ v then None else Some (SQ :: v ++ [SQ])) else Some (DQ :: v ++ [DQ]).
 
 Definition jsx_attr_stringb (s : str) : bool :=
   match s with
@@ -82,27 +84,38 @@ Definition escape (s : str) : str := replace_char RBRACE RBRACE_ENT (replace_cha
 Definition entities_reported (s : str) : bool := negb (str_eqb s (escape s)).
 
 (* ================================================================== jsx-boolean-value *)
-(* start = end of the token before `=` (else the start of `=`), end = end of the expression container *)
-Definition boolean_change (prev_tok_end : option N) (eq_start expr_end : N) : chg :=
+(* before the fix: start = end of the token before `=` (else the start of `=`), end = end of the
+   expression container, new text empty *)
+Definition boolean_change_before_fix (prev_tok_end : option N) (eq_start expr_end : N) : chg :=
   (match prev_tok_end with Some p => p | None => eq_start end, expr_end, []).
 
-(* proposed repair: a blank instead of nothing if the next character would be glued to the name
-   (`next` = the character behind the container, None at the end of the text) *)
+(* same range; a blank instead of nothing if the next character would be glued to the name
+   (`next` = the character behind the container, None at the end of the text):
+   !c.is_whitespace() && !matches!(c, '/' | '>' | '{') *)
 Definition glued_next (next : option N) : bool :=
   match next with
   | None => false
   | Some c => negb (is_ws c) && negb ((c =? 47) || (c =? GT) || (c =? LBRACE))
   end.
-Definition boolean_change_repaired (prev_tok_end : option N) (eq_start expr_end : N) (next : option N) : chg :=
+Definition boolean_change (prev_tok_end : option N) (eq_start expr_end : N) (next : option N) : chg :=
   (match prev_tok_end with Some p => p | None => eq_start end, expr_end, if glued_next next then [32] else []).
 
 (* ================================================================== jsx-props-no-spread-multi *)
-(* SourceRange { start: attr.range().start - 2, end: attr.range().end + 1 }; None = the subtraction panics *)
-Definition spread_change (s e : N) : option chg :=
+(* before the fix: SourceRange { start: attr.range().start - 2, end: attr.range().end + 1 };
+   None = the subtraction panics *)
+Definition spread_change_before_fix (s e : N) : option chg :=
   if s <? 2 then None else Some (s - 2, e + 1, []).
 
-(* proposed repair: from the end of the token before `{` to the end of the `}` token *)
-Definition spread_change_repaired (prev_tok_end rbrace_end : N) : chg := (prev_tok_end, rbrace_end, []).
+(* Tokens are inputs: `open` = the token in front of the spread node, `close` = the token behind it,
+   each given as (is it the expected brace, start, end); `prev_tok_end` = end of the token in front of
+   `open`.  A fix is offered only if open is `{` and close is `}`; its range goes from the end of the
+   token before `{` (else the start of `{`) to the end of `}`. *)
+Definition spread_change (open close : option (bool * N * N)) (prev_tok_end : option N) : option chg :=
+  match open, close with
+  | Some (true, open_start, _), Some (true, _, close_end) =>
+      Some (match prev_tok_end with Some p => p | None => open_start end, close_end, [])
+  | _, _ => None
+  end.
 
 Fixpoint count (c : N) (s : str) : N :=
   match s with [] => 0 | x :: r => (if x =? c then 1 else 0) + count c r end.
@@ -158,9 +171,10 @@ Definition node_globals : list (str * fix_kind) :=
 Fixpoint lookup (k : str) (l : list (str * fix_kind)) : option fix_kind :=
   match l with [] => None | (k', v) :: r => if str_eqb k k' then Some v else lookup k r end.
 
-(* fix_change: after the most recent import seen so far (leading newline), else at the start of the
-   first statement (trailing newline); a Replace goes over the identifier itself *)
-Definition global_change (last_import_end : option N) (code_start : N) (s e : N) (fk : fix_kind) : chg :=
+(* fix_change: after the most recent TOP-LEVEL import declaration seen so far (leading newline), else
+   at the start of the first statement (trailing newline); a Replace goes over the identifier itself.
+   (Before the fix `last_import_end` was the most recent import declaration at any depth.) *)
+Definition global_change_before_fix (last_import_end : option N) (code_start : N) (s e : N) (fk : fix_kind) : chg :=
   match fk with
   | FkImport _ _ =>
       match last_import_end with
@@ -170,12 +184,20 @@ Definition global_change (last_import_end : option N) (code_start : N) (s e : N)
   | FkReplace _ => (s, e, to_text fk NlNone)
   end.
 
-Definition process_change (last_import_end : option N) (code_start : N) : chg :=
-  global_change last_import_end code_start 0 0 FK_PROCESS.
+(* no import fix in a CommonJS file (None = the diagnostic carries no fix) *)
+Definition global_change (is_cjs : bool) (last_import_end : option N) (code_start : N) (s e : N) (fk : fix_kind) : option chg :=
+  match fk with
+  | FkImport _ _ => if is_cjs then None else Some (global_change_before_fix last_import_end code_start s e fk)
+  | FkReplace _ => Some (global_change_before_fix last_import_end code_start s e fk)
+  end.
 
-Definition node_global_change (name : str) (last_import_end : option N) (code_start s e : N) : option chg :=
+Definition process_change (is_cjs : bool) (last_import_end : option N) (code_start : N) : option chg :=
+  global_change is_cjs last_import_end code_start 0 0 FK_PROCESS.
+
+(* outer None = the name is not in NODE_GLOBALS (no diagnostic); inner None = diagnostic without fix *)
+Definition node_global_change (is_cjs : bool) (name : str) (last_import_end : option N) (code_start s e : N) : option (option chg) :=
   match lookup name node_globals with
-  | Some fk => Some (global_change last_import_end code_start s e fk)
+  | Some fk => Some (global_change is_cjs last_import_end code_start s e fk)
   | None => None
   end.
 
@@ -228,11 +250,30 @@ Definition TYPE_TRAIL : str := [116; 121; 112; 101; 32].    (* type blank *)
 
 (* all specifiers type-only: ` type` after the import/export keyword, delete `type ` (first token start
    .. second token start) of every inline type specifier *)
-Definition vms_all_changes (kw_end : N) (type_spans : list (N * N)) : list chg :=
+Definition vms_all_changes_spans (kw_end : N) (type_spans : list (N * N)) : list chg :=
   (kw_end, kw_end, TYPE_LEAD) :: map (fun ab : N * N => (fst ab, snd ab, [])) type_spans.
 
-(* one specifier type-only: `type ` in front of it *)
-Definition vms_spec_change (spec_start : N) : chg := (spec_start, spec_start, TYPE_TRAIL).
+(* a span is None if the specifier's token range has fewer than two tokens (`type as as B`): then no
+   fix is offered at all *)
+Fixpoint all_some {A : Type} (l : list (option A)) : option (list A) :=
+  match l with
+  | [] => Some []
+  | None :: _ => None
+  | Some x :: r => match all_some r with Some r' => Some (x :: r') | None => None end
+  end.
+Definition vms_all_changes (kw_end : N) (type_spans : list (option (N * N))) : option (list chg) :=
+  match all_some type_spans with
+  | Some spans => Some (vms_all_changes_spans kw_end spans)
+  | None => None
+  end.
+
+(* before the fix: `type ` in front of ANY type-only specifier *)
+Definition vms_spec_change_before_fix (spec_start : N) : chg := (spec_start, spec_start, TYPE_TRAIL).
+
+(* one specifier type-only: `type ` in front of it - offered only for a NAMED specifier whose imported
+   name is an identifier (not for default / namespace / string-named specifiers) *)
+Definition vms_spec_change (named_with_ident_name : bool) (spec_start : N) : option chg :=
+  if named_with_ident_name then Some (vms_spec_change_before_fix spec_start) else None.
 
 Fixpoint spans_sorted (pos total : N) (spans : list (N * N)) : bool :=
   match spans with
@@ -282,34 +323,44 @@ Proof.
 Qed.
 
 (* ---- jsx-curly-braces *)
-Theorem curly_attr_fix_wellformed v : ~ In DQ v -> jsx_attr_string (curly_attr_fix v).
-Proof. intros H. exists DQ, v. repeat split; [left; reflexivity | assumption]. Qed.
-
-(* exactly then: the fix is one attribute string iff the value has no double quote *)
-Theorem curly_attr_fix_wellformed_iff v : jsx_attr_string (curly_attr_fix v) <-> ~ In DQ v.
+(* every offered attribute fix is ONE attribute string - unconditionally *)
+Theorem curly_attr_fix_wellformed v s : curly_attr_fix v = Some s -> jsx_attr_string s.
 Proof.
-  split; [|apply curly_attr_fix_wellformed].
-  intros (q & w & Hq & E & Hw). unfold curly_attr_fix in E. injection E as <- E.
-  apply app_inj_tail in E as [<- _]. assumption.
-Qed.
-
-(* CURRENT CODE: the value a DQ b, i.e. <a b={'aDQb'} />, becomes <a b=DQaDQbDQ /> *)
-Theorem curly_attr_fix_refuted : exists v, ~ jsx_attr_string (curly_attr_fix v).
-Proof.
-  exists [97; 34; 98]. rewrite curly_attr_fix_wellformed_iff. intros H. apply H. right. left. reflexivity.
-Qed.
-
-(* after the proposed repair every offered attribute fix is one attribute string *)
-Theorem curly_attr_fix_repaired_wellformed v s : curly_attr_fix_repaired v = Some s -> jsx_attr_string s.
-Proof.
-  unfold curly_attr_fix_repaired. destruct (has DQ v) eqn:Hd.
+  unfold curly_attr_fix. destruct (has DQ v) eqn:Hd.
   - destruct (has SQ v) eqn:Hs; [discriminate|]. intros [= <-].
     exists SQ, v. repeat split; [right; reflexivity | apply has_not_In; assumption].
   - intros [= <-]. exists DQ, v. repeat split; [left; reflexivity | apply has_not_In; assumption].
 Qed.
 
-Theorem curly_attr_fix_repaired_agrees v : ~ In DQ v -> curly_attr_fix_repaired v = Some (curly_attr_fix v).
-Proof. intros H. apply has_not_In in H. unfold curly_attr_fix_repaired. rewrite H. reflexivity. Qed.
+(* no fix is offered exactly when the value contains both kinds of quote (no attribute string can
+   hold it, JSX attribute strings have no escapes) *)
+Theorem curly_attr_fix_none_iff v : curly_attr_fix v = None <-> In DQ v /\ In SQ v.
+Proof.
+  unfold curly_attr_fix. rewrite <- !has_In.
+  destruct (has DQ v), (has SQ v); split; try discriminate; try tauto; intros [H1 H2]; discriminate.
+Qed.
+
+Theorem curly_attr_change_range s e v c : curly_attr_change s e v = Some c -> fst c = (s, e).
+Proof. unfold curly_attr_change. destruct (curly_attr_fix v); [|discriminate]. intros [= <-]. reflexivity. Qed.
+
+(* a value without double quote gets what the old code offered *)
+Theorem curly_attr_fix_agrees_before_fix v : ~ In DQ v -> curly_attr_fix v = Some (curly_attr_fix_before_fix v).
+Proof. intros H. apply has_not_In in H. unfold curly_attr_fix. rewrite H. reflexivity. Qed.
+
+(* HISTORIC (before the fix): the old text is one attribute string iff the value has no double quote;
+   the value a DQ b, i.e. <a b={'aDQb'} />, became <a b=DQaDQbDQ /> *)
+Theorem curly_attr_fix_before_fix_wellformed_iff v : jsx_attr_string (curly_attr_fix_before_fix v) <-> ~ In DQ v.
+Proof.
+  split.
+  - intros (q & w & Hq & E & Hw). unfold curly_attr_fix_before_fix in E. injection E as <- E.
+    apply app_inj_tail in E as [<- _]. assumption.
+  - intros H. exists DQ, v. repeat split; [left; reflexivity | assumption].
+Qed.
+
+Theorem curly_attr_fix_before_fix_refuted : exists v, ~ jsx_attr_string (curly_attr_fix_before_fix v).
+Proof.
+  exists [97; 34; 98]. rewrite curly_attr_fix_before_fix_wellformed_iff. intros H. apply H. right. left. reflexivity.
+Qed.
 
 Theorem curly_child_fix_wellformed v s : curly_child_fix v = Some s -> jsx_text s.
 Proof. unfold curly_child_fix, jsx_text. destruct (ignore_chars v) eqn:E; [discriminate|]. intros [= <-]. assumption. Qed.
@@ -399,65 +450,103 @@ Lemma apply_one pre mid post new :
   apply_fix (utf8 (pre ++ mid ++ post)) [ch_bytes (bytes pre, bytes pre + bytes mid, new)] = Some (utf8 (pre ++ new ++ post)).
 Proof. apply apply_fix_utf8. Qed.
 
-(* jsx-boolean-value: `name gap = gap {true}` -> `name` (everything between the attribute name and the
-   end of the container goes, including comments in the gaps) *)
+(* jsx-boolean-value: `name gap = gap {true}` -> `name`, followed by a blank if the next character would
+   otherwise be glued to the name (everything between the attribute name and the end of the container
+   goes, including comments in the gaps) *)
 Theorem boolean_fix_result pre name rest post :
   apply_fix (utf8 (pre ++ name ++ rest ++ post))
-            [ch_bytes (boolean_change (Some (bytes (pre ++ name))) (bytes (pre ++ name)) (bytes (pre ++ name) + bytes rest))]
-  = Some (utf8 (pre ++ name ++ post)).
+            [ch_bytes (boolean_change (Some (bytes (pre ++ name))) (bytes (pre ++ name)) (bytes (pre ++ name) + bytes rest) (hd_error post))]
+  = Some (utf8 (pre ++ name ++ (if glued_next (hd_error post) then [32] else []) ++ post)).
 Proof.
   unfold boolean_change.
-  pose proof (apply_one (pre ++ name) rest post []) as H. rewrite <- !app_assoc in H. exact H.
+  pose proof (apply_one (pre ++ name) rest post (if glued_next (hd_error post) then [32] else [])) as H.
+  rewrite <- !app_assoc in H. exact H.
 Qed.
 
-(* CURRENT CODE: nothing separates the name from what follows: `<Foo a:b={true}c:d />` becomes
-   `<Foo a:bc:d />` (parse error), `<Foo foo={true}bar />` becomes `<Foo foobar />` *)
-Theorem boolean_fix_glues_refuted :
+(* the name stays apart from a following character that could continue it *)
+Theorem boolean_fix_separated pre name rest c post :
+  glued_next (Some c) = true ->
+  apply_fix (utf8 (pre ++ name ++ rest ++ c :: post))
+            [ch_bytes (boolean_change (Some (bytes (pre ++ name))) (bytes (pre ++ name)) (bytes (pre ++ name) + bytes rest) (Some c))]
+  = Some (utf8 (pre ++ name ++ 32 :: c :: post)).
+Proof.
+  intros H. pose proof (boolean_fix_result pre name rest (c :: post)) as R.
+  cbn [hd_error] in R. rewrite H in R. exact R.
+Qed.
+
+(* the only characters that may follow the name directly are white space, `/`, `>`, `{` or the end *)
+Theorem boolean_fix_next_char pre name rest post :
+  exists tail,
+    apply_fix (utf8 (pre ++ name ++ rest ++ post))
+              [ch_bytes (boolean_change (Some (bytes (pre ++ name))) (bytes (pre ++ name)) (bytes (pre ++ name) + bytes rest) (hd_error post))]
+    = Some (utf8 (pre ++ name ++ tail)) /\ glued_next (hd_error tail) = false.
+Proof.
+  exists ((if glued_next (hd_error post) then [32] else []) ++ post). split; [apply boolean_fix_result|].
+  destruct (glued_next (hd_error post)) eqn:G; [reflexivity | exact G].
+Qed.
+
+(* HISTORIC (before the fix): nothing separated the name from what follows: `<Foo a:b={true}c:d />`
+   became `<Foo a:bc:d />` (parse error), `<Foo foo={true}bar />` became `<Foo foobar />` *)
+Theorem boolean_fix_before_fix_refuted :
   exists pre name rest post,
     pre ++ name ++ rest ++ post = s2l "<Foo a:b={true}c:d />" /\
     apply_fix (utf8 (pre ++ name ++ rest ++ post))
-      [ch_bytes (boolean_change (Some (bytes (pre ++ name))) (bytes (pre ++ name)) (bytes (pre ++ name) + bytes rest))]
+      [ch_bytes (boolean_change_before_fix (Some (bytes (pre ++ name))) (bytes (pre ++ name)) (bytes (pre ++ name) + bytes rest))]
     = Some (utf8 (s2l "<Foo a:bc:d />")).
 Proof.
   exists (s2l "<Foo "), (s2l "a:b"), (s2l "={true}"), (s2l "c:d />").
   split; vm_compute; reflexivity.
 Qed.
 
-(* after the proposed repair the name is followed by what followed the container, or by a blank *)
-Theorem boolean_fix_repaired_result pre name rest post :
-  apply_fix (utf8 (pre ++ name ++ rest ++ post))
-            [ch_bytes (boolean_change_repaired (Some (bytes (pre ++ name))) (bytes (pre ++ name)) (bytes (pre ++ name) + bytes rest) (hd_error post))]
-  = Some (utf8 (pre ++ name ++ (if glued_next (hd_error post) then [32] else []) ++ post)).
-Proof.
-  unfold boolean_change_repaired.
-  pose proof (apply_one (pre ++ name) rest post (if glued_next (hd_error post) then [32] else [])) as H.
-  rewrite <- !app_assoc in H. exact H.
-Qed.
-
-Theorem boolean_fix_repaired_separated pre name rest c post :
-  glued_next (Some c) = true ->
-  apply_fix (utf8 (pre ++ name ++ rest ++ c :: post))
-            [ch_bytes (boolean_change_repaired (Some (bytes (pre ++ name))) (bytes (pre ++ name)) (bytes (pre ++ name) + bytes rest) (Some c))]
-  = Some (utf8 (pre ++ name ++ 32 :: c :: post)).
-Proof.
-  intros H. pose proof (boolean_fix_repaired_result pre name rest (c :: post)) as R.
-  cbn [hd_error] in R. rewrite H in R. exact R.
-Qed.
-
-(* OBSERVATION (not a failure of C13 as stated): nothing separates the name from what follows, so
-   `<Foo foo={true}bar />` becomes `<Foo foobar />`: the result of the splice is literally name ++ post. *)
-
-(* jsx-props-no-spread-multi under its real precondition: exactly one single-byte character and `{`
-   in front of the spread, `}` directly behind it *)
-Theorem spread_fix_range_ok pre w spread post :
-  is_ascii w = true ->
-  let text := pre ++ [w; LBRACE] ++ spread ++ [RBRACE] ++ post in
-  let s := bytes pre + 2 in let e := s + bytes spread in
-  exists c, spread_change s e = Some c /\
+(* jsx-props-no-spread-multi.  Text = pre gap `{` inner `}` post where pre ends with the token in front of
+   the attribute (gap: white space / comments) and inner contains the spread node; tokens as the parser
+   gives them.  No assumption on gap or inner: the whole attribute and the gap go, nothing else. *)
+Theorem spread_fix_range_ok pre gap inner post oe cs :
+  let text := pre ++ (gap ++ [LBRACE] ++ inner ++ [RBRACE]) ++ post in
+  let open := Some (true, bytes (pre ++ gap), oe) in
+  let close := Some (true, cs, bytes pre + bytes (gap ++ [LBRACE] ++ inner ++ [RBRACE])) in
+  exists c, spread_change open close (Some (bytes pre)) = Some c /\
     apply_fix (utf8 text) [ch_bytes c] = Some (utf8 (pre ++ post)) /\
     boundary text (fst (fst c)) /\ boundary text (snd (fst c)).
 Proof.
-  intros Hw text s e. subst text s e. unfold spread_change.
+  cbv zeta. unfold spread_change. eexists. split; [reflexivity|]. cbn [fst snd]. split.
+  - exact (apply_one pre (gap ++ [LBRACE] ++ inner ++ [RBRACE]) post []).
+  - apply apply_fix_utf8_boundaries.
+Qed.
+
+(* first attribute directly behind the start of the text (no token in front of `{`): from `{` on *)
+Theorem spread_fix_range_ok_no_prev pre inner post oe cs :
+  let text := pre ++ ([LBRACE] ++ inner ++ [RBRACE]) ++ post in
+  exists c, spread_change (Some (true, bytes pre, oe)) (Some (true, cs, bytes pre + bytes ([LBRACE] ++ inner ++ [RBRACE]))) None = Some c /\
+    apply_fix (utf8 text) [ch_bytes c] = Some (utf8 (pre ++ post)) /\
+    boundary text (fst (fst c)) /\ boundary text (snd (fst c)).
+Proof.
+  cbv zeta. unfold spread_change. eexists. split; [reflexivity|]. cbn [fst snd]. split.
+  - exact (apply_one pre ([LBRACE] ++ inner ++ [RBRACE]) post []).
+  - apply apply_fix_utf8_boundaries.
+Qed.
+
+(* no fix unless the neighbouring tokens are the braces *)
+Theorem spread_fix_needs_braces open close prev c :
+  spread_change open close prev = Some c ->
+  exists os oe cs ce, open = Some (true, os, oe) /\ close = Some (true, cs, ce) /\ snd (fst c) = ce /\ snd c = [].
+Proof.
+  unfold spread_change. destruct open as [[[[] os] oe]|]; try discriminate.
+  destruct close as [[[[] cs] ce]|]; try discriminate.
+  intros [= <-]. exists os, oe, cs, ce. repeat split.
+Qed.
+
+(* HISTORIC (before the fix): the range [start-2, end+1) was right only if exactly one single-byte
+   character and `{` preceded the spread and `}` followed it directly ... *)
+Theorem spread_fix_range_before_fix_ok pre w spread post :
+  is_ascii w = true ->
+  let text := pre ++ [w; LBRACE] ++ spread ++ [RBRACE] ++ post in
+  let s := bytes pre + 2 in let e := s + bytes spread in
+  exists c, spread_change_before_fix s e = Some c /\
+    apply_fix (utf8 text) [ch_bytes c] = Some (utf8 (pre ++ post)) /\
+    boundary text (fst (fst c)) /\ boundary text (snd (fst c)).
+Proof.
+  intros Hw text s e. subst text s e. unfold spread_change_before_fix.
   destruct (N.ltb_spec (bytes pre + 2) 2) as [H|_]; [lia|].
   eexists. split; [reflexivity|].
   assert (Hb : bytes ([w; LBRACE] ++ spread ++ [RBRACE]) = 2 + bytes spread + 1).
@@ -471,18 +560,17 @@ Proof.
   exact (apply_one pre ([w; LBRACE] ++ spread ++ [RBRACE]) post []).
 Qed.
 
-(* CURRENT CODE.  A spread attribute is `{` gap `...expr` gap `}`; the parser guarantees no more than
-   that.  (1) directly after another attribute: the range swallows the `}` of the previous attribute
-   and the result is unbalanced;  (2) after a multi-byte white space the range starts inside it. *)
-Theorem spread_fix_refuted :
+(* ... (1) directly after another attribute it swallowed the `}` of the previous attribute and the
+   result was unbalanced; (2) after a multi-byte white space it started inside that character. *)
+Theorem spread_fix_before_fix_refuted :
   (exists pre spread post c r,
       let text := pre ++ [LBRACE] ++ spread ++ [RBRACE] ++ post in
       braces_balanced text = true /\
-      spread_change (bytes pre + 1) (bytes pre + 1 + bytes spread) = Some c /\
+      spread_change_before_fix (bytes pre + 1) (bytes pre + 1 + bytes spread) = Some c /\
       apply_fix (utf8 text) [ch_bytes c] = Some (utf8 r) /\ braces_balanced r = false) /\
   (exists pre spread post c,
       let text := pre ++ [LBRACE] ++ spread ++ [RBRACE] ++ post in
-      spread_change (bytes pre + 1) (bytes pre + 1 + bytes spread) = Some c /\
+      spread_change_before_fix (bytes pre + 1) (bytes pre + 1 + bytes spread) = Some c /\
       ~ boundary text (fst (fst c))).
 Proof.
   split.
@@ -495,25 +583,20 @@ Proof.
     intros H. vm_compute in H. discriminate H.
 Qed.
 
-Corollary spread_fix_range_refuted :
+Corollary spread_fix_range_before_fix_refuted :
   exists pre spread post c,
       let text := pre ++ [LBRACE] ++ spread ++ [RBRACE] ++ post in
-      spread_change (bytes pre + 1) (bytes pre + 1 + bytes spread) = Some c /\
+      spread_change_before_fix (bytes pre + 1) (bytes pre + 1 + bytes spread) = Some c /\
       ~ boundary text (fst (fst c)).
-Proof. exact (proj2 spread_fix_refuted). Qed.
+Proof. exact (proj2 spread_fix_before_fix_refuted). Qed.
 
-(* after the proposed repair: text = pre gap { inner } post with the range from the end of the token
-   before `{` (= end of pre) to the end of `}`; no assumption on gap/inner *)
-Theorem spread_fix_repaired_ok pre gap inner post :
-  let text := pre ++ (gap ++ [LBRACE] ++ inner ++ [RBRACE]) ++ post in
-  let c := spread_change_repaired (bytes pre) (bytes pre + bytes (gap ++ [LBRACE] ++ inner ++ [RBRACE])) in
-  apply_fix (utf8 text) [ch_bytes c] = Some (utf8 (pre ++ post)) /\
-  boundary text (fst (fst c)) /\ boundary text (snd (fst c)).
-Proof.
-  cbv zeta. unfold spread_change_repaired. cbn [fst snd]. split.
-  - exact (apply_one pre (gap ++ [LBRACE] ++ inner ++ [RBRACE]) post []).
-  - apply apply_fix_utf8_boundaries.
-Qed.
+(* the same two texts with the token-based range: the attribute goes, the rest stays *)
+Theorem spread_fix_witnesses_now_ok :
+  (exists c, spread_change (Some (true, 9, 10)) (Some (true, 14, 15)) (Some 9) = Some c /\
+     apply_fix (utf8 (s2l "<a {...x}{...x}/>")) [ch_bytes c] = Some (utf8 (s2l "<a {...x}/>"))) /\
+  (exists c, spread_change (Some (true, 12, 13)) (Some (true, 17, 18)) (Some 9) = Some c /\
+     apply_fix (utf8 (s2l "<a {...x}" ++ [12288] ++ s2l "{...x}/>")) [ch_bytes c] = Some (utf8 (s2l "<a {...x}/>"))).
+Proof. split; eexists; split; try reflexivity; vm_compute; reflexivity. Qed.
 
 (* ---- globalThis *)
 Theorem global_this_ident : ident GLOBAL_THIS.
@@ -549,19 +632,27 @@ Proof.
   discriminate.
 Qed.
 
-(* placement: an insertion (start = end) with the newline on the side of the neighbouring code *)
+(* placement: an insertion (start = end) with the newline on the side of the neighbouring code;
+   never in a CommonJS file *)
 Theorem global_change_shape last code_start s e fk :
   In fk import_kinds ->
-  let '(a, b, t) := global_change last code_start s e fk in
-  a = b /\ match last with
-           | Some p => a = p /\ t = to_text fk NlLeading
-           | None => a = code_start /\ t = to_text fk NlTrailing
-           end.
+  global_change true last code_start s e fk = None /\
+  exists a t, global_change false last code_start s e fk = Some (a, a, t) /\
+    match last with
+    | Some p => a = p /\ t = to_text fk NlLeading
+    | None => a = code_start /\ t = to_text fk NlTrailing
+    end.
 Proof.
   intros H. cbn [import_kinds In] in H.
-  destruct H as [<-|[<-|[<-|[<-|[]]]]]; destruct last; cbn [global_change FK_PROCESS FK_BUFFER FK_SET_IMMEDIATE FK_CLEAR_IMMEDIATE];
-    repeat split.
+  destruct H as [<-|[<-|[<-|[<-|[]]]]]; (split; [reflexivity|]); destruct last;
+    cbn [global_change global_change_before_fix FK_PROCESS FK_BUFFER FK_SET_IMMEDIATE FK_CLEAR_IMMEDIATE];
+    eexists _, _; repeat split.
 Qed.
+
+(* `global` is renamed in every kind of file *)
+Theorem global_change_rename cjs last code_start s e :
+  global_change cjs last code_start s e FK_GLOBAL = Some (rename_change s e).
+Proof. reflexivity. Qed.
 
 Theorem import_fix_result pre post fk nl :
   apply_fix (utf8 (pre ++ post)) [ch_bytes (bytes pre, bytes pre, to_text fk nl)] = Some (utf8 (pre ++ to_text fk nl ++ post)).
@@ -582,37 +673,59 @@ Proof.
     destruct (N.leb_spec b total); [|lia]. reflexivity.
 Qed.
 
-(* the changes of the "all specifiers are types" fix are sorted, disjoint and in bounds as soon as the
+Lemma all_some_map_Some {A} (l : list A) : all_some (map Some l) = Some l.
+Proof. induction l as [|x l IH]; cbn [map all_some]; [reflexivity | rewrite IH; reflexivity]. Qed.
+
+(* the changes of the all-specifiers-are-types fix are sorted, disjoint and in bounds as soon as the
    inline `type ` spans come in source order behind the keyword *)
-Theorem vms_all_changes_valid kw_end total spans :
+Theorem vms_all_changes_valid kw_end total spans chs :
+  vms_all_changes kw_end (map Some spans) = Some chs ->
   spans_sorted kw_end total spans = true ->
-  valid_changes total (map ch_bytes (vms_all_changes kw_end spans)) = true.
+  valid_changes total (map ch_bytes chs) = true.
 Proof.
-  intros H. apply vms_spans_valid in H as [H Hb].
-  unfold valid_changes, vms_all_changes. cbn [map ch_bytes valid_from].
+  unfold vms_all_changes. rewrite all_some_map_Some. intros [= <-] H.
+  apply vms_spans_valid in H as [H Hb].
+  unfold valid_changes, vms_all_changes_spans. cbn [map ch_bytes valid_from].
   rewrite H. destruct (N.leb_spec 0 kw_end); [|lia]. rewrite N.leb_refl.
   destruct (N.leb_spec kw_end total); [|lia]. reflexivity.
 Qed.
 
+(* no fix at all if the `type` keyword of one inline specifier cannot be located *)
+Theorem vms_all_changes_none kw_end spans : In None spans -> vms_all_changes kw_end spans = None.
+Proof.
+  intros H. unfold vms_all_changes.
+  assert (E : all_some spans = None).
+  { induction spans as [|[x|] r IH]; cbn [all_some]; [destruct H | | reflexivity].
+    destruct H as [H|H]; [discriminate|]. rewrite (IH H). reflexivity. }
+  rewrite E. reflexivity.
+Qed.
+
 (* result for one inline span:  pre import mid `type ` post  ->  pre import ` type` mid post *)
 Theorem vms_all_fix_result pre kw mid tyspan post :
-  apply_fix (utf8 (pre ++ kw ++ mid ++ tyspan ++ post))
-            (map ch_bytes (vms_all_changes (bytes (pre ++ kw))
-                             [(bytes (pre ++ kw) + bytes mid, bytes (pre ++ kw) + bytes mid + bytes tyspan)]))
-  = Some (utf8 (pre ++ kw ++ TYPE_LEAD ++ mid ++ post)).
+  exists chs,
+    vms_all_changes (bytes (pre ++ kw))
+       [Some (bytes (pre ++ kw) + bytes mid, bytes (pre ++ kw) + bytes mid + bytes tyspan)] = Some chs /\
+    apply_fix (utf8 (pre ++ kw ++ mid ++ tyspan ++ post)) (map ch_bytes chs)
+    = Some (utf8 (pre ++ kw ++ TYPE_LEAD ++ mid ++ post)).
 Proof.
+  eexists. split; [reflexivity|].
   pose proof (apply_fix_utf8_segs [(pre ++ kw, [], TYPE_LEAD); (mid, tyspan, [])] post) as H.
   cbn [seg_text seg_new seg_changes_bytes app bytes] in H.
   rewrite <- !app_assoc in H. rewrite !N.add_0_l, !N.add_0_r in H.
-  unfold vms_all_changes. cbn [map ch_bytes fst snd]. exact H.
+  unfold vms_all_changes_spans. cbn [map ch_bytes fst snd]. exact H.
 Qed.
 
-Theorem vms_spec_fix_result pre spec post :
-  apply_fix (utf8 (pre ++ spec ++ post)) [ch_bytes (vms_spec_change (bytes pre))]
-  = Some (utf8 (pre ++ TYPE_TRAIL ++ spec ++ post)).
+Theorem vms_spec_fix_result pre spec post c :
+  vms_spec_change true (bytes pre) = Some c ->
+  apply_fix (utf8 (pre ++ spec ++ post)) [ch_bytes c] = Some (utf8 (pre ++ TYPE_TRAIL ++ spec ++ post)).
 Proof.
+  intros [= <-].
   pose proof (apply_one pre [] (spec ++ post) TYPE_TRAIL) as H. cbn [app bytes] in H. rewrite N.add_0_r in H. exact H.
 Qed.
+
+(* default / namespace / string-named specifiers get no inline `type` *)
+Theorem vms_spec_change_only_named start : vms_spec_change false start = None.
+Proof. reflexivity. Qed.
 
 (* the keyword and the inserted word stay separate words: ` type` starts, `type ` ends with a blank *)
 Theorem vms_keyword_separated :
